@@ -150,7 +150,17 @@ fn print_mode(threads: u64, per: u64, seed: u64) {
                     let [f0, f1, f2, f3, f4] = record_fragments(tid, seq);
                     let d = mix(seed ^ (tid << 32) ^ seq);
                     let (s0, s1, s2, s3, s4) = (Slow(&f0, d), Slow(&f1, d >> 8), Slow(&f2, d >> 16), Slow(&f3, d >> 24), Slow(&f4, d >> 32));
-                    match (seq + tid) % 12 {
+                    match (seq + tid) % 13 {
+                        12 => {
+                            // a format string without arguments that carries its own escape sequences (the record cannot
+                            // name the thread: the checker counts these lines instead); keep in sync with vlib/c19.py::LITERALS
+                            let _ = match tid % 4 {
+                                0 => write!(anstream::stdout(), "<L0:\x1b[1;31merror\x1b[0m: literal zero \x1b[4mdone\x1b[0m>\n"),
+                                1 => write!(anstream::stdout(), "<L1:\x1b[32mok\x1b[0m literal one, no arguments at all>\n"),
+                                2 => write!(anstream::stdout(), "<L2:plain literal two>\n"),
+                                _ => write!(anstream::stdout(), "<L3:\x1b[38;5;208mliteral\x1b[0m \x1b[1mthree\x1b[0m \x1b[3mwith\x1b[0m \x1b[4mmany\x1b[0m \x1b[7mpieces\x1b[0m>\n"),
+                            };
+                        }
                         8 => {
                             // the process-wide handle behind `&mut`
                             let mut so = std::io::stdout();
